@@ -168,13 +168,13 @@ func (e dent) coq() string {
 }
 
 type fileView struct {
-	hash       bool
-	crt        *x509.Certificate
-	key        crypto.Signer
-	req        *x509.CertificateRequest
-	keyDER     []byte
-	reqDER     []byte
-	hasKeyBlk  bool
+	hash      bool
+	crt       *x509.Certificate
+	key       crypto.Signer
+	req       *x509.CertificateRequest
+	keyDER    []byte
+	reqDER    []byte
+	hasKeyBlk bool
 }
 
 func viewOf(data []byte) fileView {
